@@ -20,7 +20,7 @@ EXPLANATION = ('Theorems in Props/C18.lean about the model scanner: tokens indep
 ASSUMPTIONS = ['a data directive is always the last statement on its line (the data-line pattern owns the rest of the line)',
                'strings and preprocessor directives are not part of the rewritten language']
 LEVEL = 'proof'
-MNEMS = ['nop', 'ldn', 'ldi', 'ldw', 'jr', 'jre', 'st', 'inc', 'mv', 'ldx']
+MNEMS = ['nop', 'ldn', 'ldi', 'ldw', 'jr', 'jre', 'st', 'inc', 'mv', 'ldx', 'ldv']
 
 
 def gen_program(rng):
@@ -51,7 +51,14 @@ def gen_program(rng):
             k = rng.randint(1, 3)
             toks = ['.byte']
             for j in range(k):
-                toks += [str(rng.randint(0, 255))] + ([','] if j < k - 1 else [])
+                v = str(rng.randint(0, 255))
+                if rng.random() < 0.25:
+                    # quoted characters that look like syntax: a label in front of the statement, a trailing comment or
+                    # another layout must not cut the literal
+                    v = rng.choice(["';'", "','", "':'", "' '", "'a'", "'#'"])
+                toks += [v] + ([','] if j < k - 1 else [])
+            if rng.random() < 0.2:
+                toks = [rng.choice(['.cstr', '.asciiz']), rng.choice(['"a;b"', '"x, y; z"', '"lbl: nop"', '"; not a comment"', '"it\'s"'])]
             stmts.append(('data', toks))
         else:
             mn = rng.choice(MNEMS)
@@ -72,6 +79,9 @@ def gen_program(rng):
                 toks = ['st', '[', val(), ']'] if rng.random() < 0.6 else ['st', '[', val(), '+', '1', ']']
             elif mn == 'inc':
                 toks = ['inc', reg()]
+            elif mn == 'ldv':
+                # numeric variant first, register variant second: the letter case of the register must not decide
+                toks = ['ldv', reg() if rng.random() < 0.7 else val()]
             elif mn == 'ldx':
                 toks = ['ldx', '[', reg(), ']'] if rng.random() < 0.5 else ['ldx', '[', reg(), '+', str(rng.randint(0, 9)), ']']
             else:
@@ -181,6 +191,8 @@ def gen_case(rng, tier):
                                                     'offset': {'size': 8, 'byte_align': True}} for i, r in enumerate(C10.REGS)}}
     instrs_y = dict(instrs_y)
     instrs_y['ldx'] = {'bytecode': {'value': 0x1C, 'size': 6}, 'operands': {'count': 1, 'operand_sets': {'list': ['indr']}}}
+    instrs_y['ldv'] = {'bytecode': {'value': 0x61, 'size': 8}, 'operands': {'count': 1, 'operand_sets': {'list': ['imm8']}},
+                       'variants': [{'bytecode': {'value': 0x62, 'size': 8}, 'operands': {'count': 1, 'operand_sets': {'list': ['regs']}}}]}
     isa = {'description': 'c18', 'general': {'address_size': 16, 'endian': de, 'registers': list(C10.REGS)},
            'operand_sets': osets, 'instructions': instrs_y}
     consts, stmts = gen_program(rng)
@@ -190,7 +202,10 @@ def gen_case(rng, tier):
         t, k = render(rng, consts, stmts, False)
         variants.append(t)
         kinds |= k
-    return {'isa': isa, 'canon': canon, 'variants': variants, 'kinds': sorted(kinds), 'nstmts': len(stmts)}
+    quoted = any(t[0] in '"\'' for k, x in stmts if k != 'label' for t in x)
+    if quoted:
+        kinds.add('quoted-syntax-characters')
+    return {'isa': isa, 'canon': canon, 'variants': variants, 'kinds': sorted(kinds), 'nstmts': len(stmts), 'quoted': quoted}
 
 
 def generate(rng, tier):
@@ -220,6 +235,8 @@ def judge(case, irs, mrs):
     texts = [m['canon'] for m in mrs]
     consts_hdr = ''
     for t2, t in zip(texts, case['variants']):
+        if case.get('quoted'):
+            break           # the model scanner has no quoted tokens: these programs are checked on the real code only
         r2 = impl.run_one(impl.compile_case(case['isa'], {'main.asm': t2}), timeout=10)
         im2 = impl.fbytes(r2, 'out.bin') if r2['status'] == 'ok' else None
         if im2 != base:
